@@ -65,6 +65,21 @@ def check(ctx: Ctx) -> str:
     loop = loops[0]
     # recognise the shape: first-match (`if isinstance: return attr in unsafe`) or any-match
     src = ast.unparse(loop)
+    # the loop's own variable names are mapped onto (typespec, unsafe) before matching
+    if isinstance(loop.target, ast.Tuple) and len(loop.target.elts) == 2 and all(isinstance(e_, ast.Name) for e_ in loop.target.elts):
+        import copy as _copy
+        import re as _re
+
+        ren = {loop.target.elts[0].id: "typespec", loop.target.elts[1].id: "unsafe"}  # type: ignore[attr-defined]
+        if list(ren) != ["typespec", "unsafe"]:
+            from ..normalize import clone, set_parents
+
+            loop = clone(loop)
+            for n_ in ast.walk(loop):
+                if isinstance(n_, ast.Name) and n_.id in ren:
+                    n_.id = ren[n_.id]
+            set_parents(loop)
+            src = ast.unparse(loop)
     first_match = False
     any_match = False
     for n in ast.walk(loop):
